@@ -30,7 +30,7 @@ type SolverStats struct {
 	Nanos                           int64
 }
 
-var gStats = map[string]*SolverStats{"cvc5": {}, "z3": {}}
+var gStats = map[string]*SolverStats{"cvc5": {}, "z3": {}, "z3old": {}}
 
 type Proc struct {
 	kind    string
@@ -52,6 +52,8 @@ func startProc(kind string, tlimitMs int) (*Proc, error) {
 		cmd = exec.Command("cvc5", "--incremental", "--strings-exp", "--produce-models", "--lang=smt2", fmt.Sprintf("--tlimit-per=%d", tlimitMs))
 	case "z3":
 		cmd = exec.Command("z3-new", "-in", fmt.Sprintf("-t:%d", tlimitMs))
+	case "z3old":
+		cmd = exec.Command("z3", "-in", fmt.Sprintf("-t:%d", tlimitMs))
 	default:
 		return nil, fmt.Errorf("unknown solver %s", kind)
 	}
@@ -216,6 +218,31 @@ func (s *Solver) define(p *Proc, t *Term, sb *strings.Builder) string {
 	body := s.in.render(t, func(x *Term) string { return refs[x] })
 	p.defined[t.id] = true
 	fmt.Fprintf(sb, "(define-fun t!%d () %s %s)\n", t.id, t.sort, body)
+	if t.op == "uf" && t.name == "nlmul" {
+		// facts true of every integer product (the abstraction over-approximates multiplication)
+		pr, a, b := fmt.Sprintf("t!%d", t.id), refs[t.args[0]], refs[t.args[1]]
+		fmt.Fprintf(sb, "(assert (= (= %s 0) (or (= %s 0) (= %s 0))))\n", pr, a, b)
+		fmt.Fprintf(sb, "(assert (=> (and (> %s 0) (> %s 0)) (and (>= %s %s) (>= %s %s))))\n", a, b, pr, a, pr, b)
+		fmt.Fprintf(sb, "(assert (=> (and (< %s 0) (< %s 0)) (and (>= %s (- %s)) (>= %s (- %s)))))\n", a, b, pr, a, pr, b)
+		fmt.Fprintf(sb, "(assert (=> (and (> %s 0) (< %s 0)) (and (<= %s (- %s)) (<= %s %s))))\n", a, b, pr, a, pr, b)
+		fmt.Fprintf(sb, "(assert (=> (and (< %s 0) (> %s 0)) (and (<= %s %s) (<= %s (- %s)))))\n", a, b, pr, a, pr, b)
+		fmt.Fprintf(sb, "(assert (=> (= %s 1) (= %s %s)))\n(assert (=> (= %s 1) (= %s %s)))\n", a, pr, b, b, pr, a)
+	}
+	if t.op == "uf" && (t.name == "nldiv" || t.name == "nlmod") {
+		// Euclidean division by a symbolic divisor, abstracted: range and ordering facts only
+		x, a, b := fmt.Sprintf("t!%d", t.id), refs[t.args[0]], refs[t.args[1]]
+		if t.name == "nldiv" {
+			fmt.Fprintf(sb, "(assert (=> (and (>= %s 0) (> %s 0)) (and (>= %s 0) (<= %s %s))))\n", a, b, x, x, a)
+			fmt.Fprintf(sb, "(assert (=> (and (>= %s 0) (> %s %s)) (= %s 0)))\n", a, b, a, x)
+			fmt.Fprintf(sb, "(assert (=> (and (= %s %s) (not (= %s 0))) (= %s 1)))\n", a, b, b, x)
+			fmt.Fprintf(sb, "(assert (=> (and (>= %s %s) (> %s 0)) (>= %s 1)))\n", a, b, b, x)
+			fmt.Fprintf(sb, "(assert (=> (= %s 1) (= %s %s)))\n", b, x, a)
+		} else {
+			fmt.Fprintf(sb, "(assert (=> (> %s 0) (and (>= %s 0) (< %s %s))))\n", b, x, x, b)
+			fmt.Fprintf(sb, "(assert (=> (< %s 0) (and (>= %s 0) (< %s (- %s)))))\n", b, x, x, b)
+			fmt.Fprintf(sb, "(assert (=> (and (>= %s 0) (> %s %s)) (= %s %s)))\n", a, b, a, x, a)
+		}
+	}
 	return fmt.Sprintf("t!%d", t.id)
 }
 
@@ -337,8 +364,12 @@ func (s *Solver) CheckInc(pc []*Term, extra []*Term, wantModel []*Term) (Result,
 	all := append(append([]*Term{}, pc...), extra...)
 	strs := hasStrOps(all, map[int]bool{})
 	r, m := s.checkIncOn("cvc5", pc, extra, wantModel)
-	if r == Unknown && !strs {
-		r, m = s.checkOn("z3", all, wantModel)
+	if r == Unknown {
+		// z3 4.8.12 decides most of the nonlinear queries cvc5 gives up on (measured); also try z3 5.x
+		r, m = s.checkOn("z3old", all, wantModel)
+		if r == Unknown && !strs {
+			r, m = s.checkOn("z3", all, wantModel)
+		}
 	}
 	if s.diff && !strs && r != Unknown {
 		r2, _ := s.checkOn("z3", all, nil)
